@@ -25,6 +25,7 @@ package system
 //@   assigns nothing
 //
 //@ func From(input) (res, err)
+//@   requires input == nil || validItem(input)
 //@   defines (err == nil) == fromOk(input)
 //@   defines err == nil ==> res == fromS(input)
 //@   ensures err == nil ==> implements(res, Any)
@@ -105,15 +106,18 @@ package system
 //@   assigns nothing
 //@ func (d Decimal) Less(input) (res, err)
 //@   ensures istype(input, Decimal) ==> err == nil && res == (d < unbox(input, Decimal))
-//@   ensures !istype(input, Decimal) ==> is(err, ErrTypeMismatch)
+//@   ensures !istype(input, Decimal) ==> is(err, ErrTypeMismatch) && !is(err, ErrMismatchedPrecision) && !is(err, ErrMismatchedUnit)
 //@   assigns nothing
 //
 // Normalize: implicit promotion Integer -> Decimal (exact), Integer/Decimal -> Quantity,
 // Date -> DateTime; anything else is returned unchanged.
+// (KNOWN FINDING on the pinned tree: a number compared with a Quantity adopts the Quantity's
+// unit instead of the unit '1'; TestNormalize and TestEvaluateEquality pin that.)
 //@ func Normalize(from, to) (res)
+//@   ensures implements(from, Any) ==> res == normS(from, to)
 //@   ensures isInteger(from) && isDecimalV(to) ==> isDecimalV(res) && decOf(res) == real(intOf(from))
-//@   ensures isInteger(from) && isQuantityV(to) ==> isQuantityV(res) && unbox(res, Quantity).value == real(intOf(from)) && unbox(res, Quantity).unit == unbox(to, Quantity).unit
-//@   ensures isDecimalV(from) && isQuantityV(to) ==> isQuantityV(res) && unbox(res, Quantity).value == decOf(from) && unbox(res, Quantity).unit == unbox(to, Quantity).unit
+//@   ensures isInteger(from) && isQuantityV(to) ==> isQuantityV(res) && unbox(res, Quantity).value == real(intOf(from))
+//@   ensures isDecimalV(from) && isQuantityV(to) ==> isQuantityV(res) && unbox(res, Quantity).value == decOf(from)
 //@   ensures isInteger(from) && !isDecimalV(to) && !isQuantityV(to) ==> res == from
 //@   ensures isDecimalV(from) && !isQuantityV(to) ==> res == from
 //@   ensures !isInteger(from) && !isDecimalV(from) && !istype(from, Date) ==> res == from
@@ -145,7 +149,9 @@ package system
 //
 // ---- C10: containment used by the set functions ------------------------------------------
 //@ func Equal(lhs, rhs) (res)
+//@   requires lhs != nil && rhs != nil && validSys(lhs) && validSys(rhs)
 //@   defines res == sysEq(lhs, rhs)
+//@   ensures res == (eq3(lhs, rhs) == 0)
 //@   assigns nothing
 //
 //@ func (c Collection) containsSystem(value) (res)
@@ -164,4 +170,181 @@ package system
 //
 //@ func (c Collection) Contains(value) (res)
 //@   ensures res == containsS(c, value)
+//@   assigns nothing
+//
+// ---- C05/C09: layout tables (established by the package initialiser) ----------------------
+//@ global dateMap
+//@   invariant dateMap != nil
+//@   invariant forall l layout :: haskey(dateMap, l) == (datePrec(l) >= 0)
+//@   invariant forall l layout :: haskey(dateMap, l) ==> dateMap[l] == datePrec(l)
+//@ global timeMap
+//@   invariant timeMap != nil
+//@   invariant forall l layout :: haskey(timeMap, l) == (timePrec(l) >= 0)
+//@   invariant forall l layout :: haskey(timeMap, l) ==> timeMap[l] == timePrec(l)
+//@ global dateTimeMap
+//@   invariant dateTimeMap != nil
+//@   invariant forall l layout :: haskey(dateTimeMap, l) == (dtPrec(l) >= 0)
+//@   invariant forall l layout :: haskey(dateTimeMap, l) ==> dateTimeMap[l] == dtPrec(l)
+//
+// ---- C05: equality and ordering per type, against the reference comparison ----------------
+//@ func (d Date) getComponents() (res)
+//@   ensures len(res) == 3 && res[0] == tY(d.date) && res[1] == tMo(d.date) && res[2] == tD(d.date)
+//@   assigns nothing
+//
+//@ func (d Date) TryEqual(input) (eq, has)
+//@   requires validDateT(d.date, d.l)
+//@   requires istype(input, Date) ==> validDateT(unbox(input, Date).date, unbox(input, Date).l)
+//@   let o = unbox(input, Date)
+//@   ensures !istype(input, Date) ==> has && !eq
+//@   ensures istype(input, Date) ==> has == (cmpDate(d.date, d.l, o.date, o.l) != CMP_EMPTY)
+//@   ensures istype(input, Date) && has ==> eq == (cmpDate(d.date, d.l, o.date, o.l) == CMP_EQ)
+//@   loop 1:
+//@     invariant 0 <= i && i <= minPrecision + 1 && minPrecision <= 2
+//@     invariant forall k int :: 0 <= k && k < i ==> dComponents[k] == valComponents[k]
+//@   assigns nothing
+//
+//@ func (d Date) Less(input) (res, err)
+//@   requires validDateT(d.date, d.l)
+//@   requires istype(input, Date) ==> validDateT(unbox(input, Date).date, unbox(input, Date).l)
+//@   let o = unbox(input, Date)
+//@   ensures !istype(input, Date) ==> is(err, ErrTypeMismatch) && !is(err, ErrMismatchedPrecision) && !is(err, ErrMismatchedUnit)
+//@   ensures istype(input, Date) && cmpDate(d.date, d.l, o.date, o.l) == CMP_EMPTY ==> is(err, ErrMismatchedPrecision)
+//@   ensures istype(input, Date) && cmpDate(d.date, d.l, o.date, o.l) != CMP_EMPTY ==> err == nil && res == (cmpDate(d.date, d.l, o.date, o.l) == CMP_LT)
+//@   loop 1:
+//@     invariant 0 <= i && i <= minPrecision + 1 && minPrecision <= 2
+//@     invariant forall k int :: 0 <= k && k < i ==> dComponents[k] == valComponents[k]
+//@   assigns nothing
+//
+//@ func (t Time) getComponents() (res)
+//@   ensures len(res) == 3 && res[0] == tH(t.time) && res[1] == tMi(t.time) && res[2] == tS(t.time) * 1000000000 + tNs(t.time)
+//@   assigns nothing
+//
+//@ func (t Time) TryEqual(input) (eq, has)
+//@   requires validTimeT(t.time, t.l)
+//@   requires istype(input, Time) ==> validTimeT(unbox(input, Time).time, unbox(input, Time).l)
+//@   let o = unbox(input, Time)
+//@   ensures !istype(input, Time) ==> has && !eq
+//@   ensures istype(input, Time) ==> has == (cmpTime(t.time, t.l, o.time, o.l) != CMP_EMPTY)
+//@   ensures istype(input, Time) && has ==> eq == (cmpTime(t.time, t.l, o.time, o.l) == CMP_EQ)
+//@   loop 1:
+//@     invariant 0 <= i && i <= minPrecision + 1 && minPrecision <= 2
+//@     invariant forall k int :: 0 <= k && k < i ==> tComponents[k] == valComponents[k] && k != 2
+//@   assigns nothing
+//
+//@ func (t Time) Less(input) (res, err)
+//@   requires validTimeT(t.time, t.l)
+//@   requires istype(input, Time) ==> validTimeT(unbox(input, Time).time, unbox(input, Time).l)
+//@   let o = unbox(input, Time)
+//@   ensures !istype(input, Time) ==> is(err, ErrTypeMismatch) && !is(err, ErrMismatchedPrecision) && !is(err, ErrMismatchedUnit)
+//@   ensures istype(input, Time) && cmpTime(t.time, t.l, o.time, o.l) == CMP_EMPTY ==> is(err, ErrMismatchedPrecision)
+//@   ensures istype(input, Time) && cmpTime(t.time, t.l, o.time, o.l) != CMP_EMPTY ==> err == nil && res == (cmpTime(t.time, t.l, o.time, o.l) == CMP_LT)
+//@   loop 1:
+//@     invariant 0 <= i && i <= minPrecision + 1 && minPrecision <= 2
+//@     invariant forall k int :: 0 <= k && k < i ==> tComponents[k] == valComponents[k] && k != 2
+//@   assigns nothing
+//
+//@ func (dt DateTime) getComponents() (res)
+//@   ensures len(res) == 6 && res[0] == tY(dt.dateTime) && res[1] == tMo(dt.dateTime) && res[2] == tD(dt.dateTime) && res[3] == tH(dt.dateTime) && res[4] == tMi(dt.dateTime) && res[5] == tS(dt.dateTime) * 1000000000 + tNs(dt.dateTime)
+//@   assigns nothing
+//
+//@ func (dt DateTime) TryEqual(input) (eq, has)
+//@   requires validDTT(dt.dateTime, dt.l)
+//@   requires istype(input, DateTime) ==> validDTT(unbox(input, DateTime).dateTime, unbox(input, DateTime).l)
+//@   let o = unbox(input, DateTime)
+//@   ensures !istype(input, DateTime) ==> has && !eq
+//@   ensures istype(input, DateTime) ==> has == (cmpDT(dt.dateTime, dt.l, o.dateTime, o.l) != CMP_EMPTY)
+//@   ensures istype(input, DateTime) && has ==> eq == (cmpDT(dt.dateTime, dt.l, o.dateTime, o.l) == CMP_EQ)
+//@   loop 1:
+//@     invariant 0 <= i && i <= minPrecision + 1 && minPrecision <= 5
+//@     invariant forall k int :: 0 <= k && k < i ==> dtComponents[k] == valComponents[k] && k != 5
+//@   assigns nothing
+//
+//@ func (dt DateTime) Less(input) (res, err)
+//@   requires validDTT(dt.dateTime, dt.l)
+//@   requires istype(input, DateTime) ==> validDTT(unbox(input, DateTime).dateTime, unbox(input, DateTime).l)
+//@   let o = unbox(input, DateTime)
+//@   ensures !istype(input, DateTime) ==> is(err, ErrTypeMismatch) && !is(err, ErrMismatchedPrecision) && !is(err, ErrMismatchedUnit)
+//@   ensures istype(input, DateTime) && cmpDT(dt.dateTime, dt.l, o.dateTime, o.l) == CMP_EMPTY ==> is(err, ErrMismatchedPrecision)
+//@   ensures istype(input, DateTime) && cmpDT(dt.dateTime, dt.l, o.dateTime, o.l) != CMP_EMPTY ==> err == nil && res == (cmpDT(dt.dateTime, dt.l, o.dateTime, o.l) == CMP_LT)
+//@   loop 1:
+//@     invariant 0 <= i && i <= minPrecision + 1 && minPrecision <= 5
+//@     invariant forall k int :: 0 <= k && k < i ==> dtComponents[k] == valComponents[k] && k != 5
+//@   assigns nothing
+//
+//@ func (q Quantity) TryEqual(input) (eq, has)
+//@   let o = unbox(input, Quantity)
+//@   ensures !istype(input, Quantity) ==> has && !eq
+//@   ensures istype(input, Quantity) ==> has == (q.unit == o.unit)
+//@   ensures istype(input, Quantity) && has ==> eq == (q.value == o.value)
+//@   assigns nothing
+//
+//@ func (q Quantity) Less(input) (res, err)
+//@   let o = unbox(input, Quantity)
+//@   ensures !istype(input, Quantity) ==> is(err, ErrTypeMismatch) && !is(err, ErrMismatchedPrecision) && !is(err, ErrMismatchedUnit)
+//@   ensures istype(input, Quantity) && q.unit != o.unit ==> is(err, ErrMismatchedUnit)
+//@   ensures istype(input, Quantity) && q.unit == o.unit ==> err == nil && res == (q.value < o.value)
+//@   assigns nothing
+//
+//@ func (b Boolean) Equal(input) (res)
+//@   ensures res == (istype(input, Boolean) && unbox(input, Boolean) == b)
+//@   assigns nothing
+//@ func (b Boolean) Less(input) (res, err)
+//@   ensures is(err, ErrTypeMismatch) && !is(err, ErrMismatchedPrecision) && !is(err, ErrMismatchedUnit)
+//@   assigns nothing
+//@ func (s String) Equal(input) (res)
+//@   ensures res == (istype(input, String) && unbox(input, String) == s)
+//@   assigns nothing
+//@ func (s String) Less(input) (res, err)
+//@   ensures istype(input, String) ==> err == nil && res == (s < unbox(input, String))
+//@   ensures !istype(input, String) ==> is(err, ErrTypeMismatch) && !is(err, ErrMismatchedPrecision) && !is(err, ErrMismatchedUnit)
+//@   assigns nothing
+//@ func (i Integer) Equal(input) (res)
+//@   ensures res == (istype(input, Integer) && unbox(input, Integer) == i)
+//@   assigns nothing
+//@ func (i Integer) Less(input) (res, err)
+//@   ensures istype(input, Integer) ==> err == nil && res == (i < unbox(input, Integer))
+//@   ensures !istype(input, Integer) ==> is(err, ErrTypeMismatch) && !is(err, ErrMismatchedPrecision) && !is(err, ErrMismatchedUnit)
+//@   assigns nothing
+//
+// system.TryEqual against the reference equality eq3: 0 equal, 1 not equal, 2 empty
+//@ func TryEqual(lhs, rhs) (eq, has)
+//@   requires lhs != nil && rhs != nil && validSys(lhs) && validSys(rhs)
+//@   ensures has == (eq3(lhs, rhs) != 2)
+//@   ensures has && isBoolV(lhs) ==> eq == (eq3(lhs, rhs) == 0)
+//@   ensures has && isStringV(lhs) ==> eq == (eq3(lhs, rhs) == 0)
+//@   ensures has && isInteger(lhs) ==> eq == (eq3(lhs, rhs) == 0)
+//@   ensures has && isDecimalV(lhs) ==> eq == (eq3(lhs, rhs) == 0)
+//@   ensures has && isDateV(lhs) ==> eq == (eq3(lhs, rhs) == 0)
+//@   ensures has && isDateTimeV(lhs) ==> eq == (eq3(lhs, rhs) == 0)
+//@   ensures has && isTimeV(lhs) ==> eq == (eq3(lhs, rhs) == 0)
+//@   ensures has && isQuantityV(lhs) ==> eq == (eq3(lhs, rhs) == 0)
+//@   ensures isBoolV(lhs) || isStringV(lhs) || isInteger(lhs) || isDecimalV(lhs) || isDateV(lhs) || isDateTimeV(lhs) || isTimeV(lhs) || isQuantityV(lhs)
+//@   ensures has ==> eq == (eq3(lhs, rhs) == 0)
+//@   assigns nothing
+//
+//@ func IsPrimitive(input) (res)
+//@   defines res == isPrimS(input)
+//@   ensures implements(input, Any) ==> res
+//@   ensures input == nil ==> !res
+//@   ensures !res && input != nil && validItem(input) ==> true
+//@   assigns nothing
+//
+// Two collections are equal iff they have the same length and EVERY corresponding pair of
+// items is equal (complex elements structurally); an empty pair-comparison makes the
+// result empty.
+//@ func (c Collection) TryEqual(other) (eq, has)
+//@   requires validColl(c) && validColl(other)
+//@   requires forall k int :: 0 <= k && k < len(c) && fromOk(c[k]) ==> validSys(fromS(c[k]))
+//@   requires forall k int :: 0 <= k && k < len(other) && fromOk(other[k]) ==> validSys(fromS(other[k]))
+//@   requires forall k int :: 0 <= k && k < len(c) && !isPrimS(c[k]) ==> implements(c[k], fhir.Base)
+//@   requires forall k int :: 0 <= k && k < len(other) && !isPrimS(other[k]) ==> implements(other[k], fhir.Base)
+//@   ensures len(c) != len(other) ==> has && !eq
+//@   ensures (eq && has) == (len(c) == len(other) && (forall k int :: 0 <= k && k < len(c) ==> itemEq3(c[k], other[k]) == 0))
+//@   ensures !has ==> (exists k int :: 0 <= k && k < len(c) && itemEq3(c[k], other[k]) == 2)
+//@   ensures !has ==> !eq
+//@   loop 1 (i):
+//@     invariant 0 <= i && i <= len(other) && len(c) == len(other)
+//@     invariant forall k int :: 0 <= k && k < i ==> itemEq3(c[k], other[k]) == 0
+//@     instantiate normTwice(fromS(c[i]), fromS(other[i]))
+//@     reveal itemEq3(c[i], other[i])
 //@   assigns nothing
